@@ -436,3 +436,326 @@ def with_history(rng, inp, steps):
         hist.append(rand_call(rng, n))
     inp["history"] = hist
     return inp
+
+
+# ---------------------------------------------------------------------------- body-shape histories (growth)
+class TrackIter:
+    """closable iterator that records the operation during which it was first advanced"""
+
+    def __init__(self, items, tracker):
+        self._it = iter(items)
+        self._tracker = tracker
+        self.owner = ""
+        self.advanced = False
+        self.closed = 0
+
+    def __iter__(self):
+        return self
+
+    def __next__(self):
+        if not self.advanced:
+            self.advanced = True
+            self.owner = self._tracker["op"]
+        return next(self._it)
+
+    def close(self):
+        self.closed += 1
+
+
+SHAPE_INITS = {
+    "str": {"kind": "str", "items": [{"k": "s", "v": [233]}], "pt": False},
+    "list": {"kind": "list", "items": [{"k": "s", "v": [233]}, {"k": "s", "v": []}], "pt": False},
+    "tuple": {"kind": "tuple", "items": [{"k": "b", "v": [195]}], "pt": False},
+    "iter": {"kind": "iter", "items": [{"k": "s", "v": [233]}, {"k": "b", "v": [195]}], "pt": False},
+    "iter_pt": {"kind": "iter", "items": [{"k": "b", "v": [195]}, {"k": "b", "v": [195]}], "pt": True},
+}
+O0 = {"o": "", "k": "", "v": {"k": "b", "v": []}, "items": [], "b": False}
+
+
+def mkop(o, **kw):
+    op = dict(O0)
+    op["o"] = o
+    op.update(kw)
+    return op
+
+
+def _shape_op(resp, op, iters, tracker):
+    o = op["o"]
+    if o == "set_data":
+        resp.set_data(_item(op["v"]))
+    elif o == "data_set":
+        resp.data = _item(op["v"])
+    elif o == "get_data":
+        resp.get_data(as_text=op["b"])
+    elif o == "data_get":
+        resp.data
+    elif o == "assign":
+        items = [_item(it) for it in op["items"]]
+        if op["k"] == "iter":
+            ti = TrackIter(items, tracker)
+            iters.append(ti)
+            resp.response = ti
+        else:
+            resp.response = list(items) if op["k"] == "list" else tuple(items)
+    elif o == "make_sequence":
+        resp.make_sequence()
+    elif o == "freeze":
+        resp.freeze()
+    elif o == "iter_consume":
+        list(resp.iter_encoded())
+    elif o == "set_isc":
+        resp.implicit_sequence_conversion = op["b"]
+    elif o == "set_pt":
+        resp.direct_passthrough = op["b"]
+    elif o == "calc_len":
+        resp.calculate_content_length()
+    elif o == "stream_write":
+        resp.stream.write(_item(op["v"]))
+    elif o == "stream_writelines":
+        resp.stream.writelines([_item(it) for it in op["items"]])
+    elif o == "stream_tell":
+        resp.stream.tell()
+    else:
+        raise ValueError(o)
+
+
+def shape_case(case):
+    """case = {init: {kind, items, pt}, ops: [op], method, code, ncb}: build the Response, perform the
+    history (exceptions recorded per step), finalise, iterate fully, close.  Returns the recorded line."""
+    from werkzeug.wrappers import Response
+
+    init = case["init"]
+    tracker = {"op": "ctor"}
+    iters = []
+    counts = [0] * case["ncb"]
+    out = {"exc": "", "status": [], "headers": [], "body": [], "allbytes": True, "cb": [], "ic": -1, "raw": False}
+    hist = []
+    wrapped = None
+    try:
+        items = [_item(it) for it in init["items"]]
+        if init["kind"] in ("str", "bytes"):
+            body = items[0]
+        elif init["kind"] == "list":
+            body = list(items)
+        elif init["kind"] == "tuple":
+            body = tuple(items)
+        else:
+            body = TrackIter(items, tracker)
+            iters.append(body)
+        resp = Response(body, status=case["code"], direct_passthrough=init["pt"])
+        for k in range(case["ncb"]):
+            def cb(k=k):
+                counts[k] += 1
+            resp.call_on_close(cb)
+        for op in case["ops"]:
+            tracker["op"] = op["o"]
+            rec = dict(op)
+            rec["exc"] = ""
+            try:
+                _shape_op(resp, op, iters, tracker)
+            except Exception as e:  # recorded; compared with the model as drift only
+                rec["exc"] = type(e).__name__
+            hist.append(rec)
+        tracker["op"] = "finalize"
+        wrapped = resp.response
+        env = environ_for(case["method"])
+        app_iter, status_line, headers = resp.get_wsgi_response(env)
+        out["raw"] = app_iter is resp.response
+        out["status"] = cps(status_line)
+        out["headers"] = hlist(headers)
+        chunks = list(app_iter)
+        if hasattr(app_iter, "close"):
+            app_iter.close()
+        out["allbytes"] = all(type(c) is bytes for c in chunks)
+        out["body"] = list(b"".join(c if isinstance(c, (bytes, bytearray)) else str(c).encode("utf-8", "replace") for c in chunks))
+    except Exception as e:  # recorded, judged by TLC
+        out["exc"] = type(e).__name__
+    out["cb"] = list(counts)
+    its = [{"live": True, "owner": ti.owner, "wrapped": ti is wrapped, "closes": ti.closed} for ti in iters[:2]]
+    while len(its) < 2:
+        its.append({"live": False, "owner": "", "wrapped": False, "closes": 0})
+    return {"op": "shape", "init": init, "hist": hist, "method": case["method"], "code": case["code"], "ncb": case["ncb"],
+            "out": out, "its": its}
+
+
+def rand_shape_case(rng):
+    def item(bytes_only=False):
+        if bytes_only or rng.random() < 0.5:
+            return {"k": "b", "v": [rng.randrange(256) for _ in range(rng.randint(0, 4))]}
+        return {"k": "s", "v": cps(rand_text(rng, 4))}
+    kind = rng.choice(["str", "bytes", "list", "tuple", "iter", "iter"])
+    pt = kind == "iter" and rng.random() < 0.3
+    if kind == "str":
+        items = [{"k": "s", "v": cps(rand_text(rng, 6))}]
+    elif kind == "bytes":
+        items = [item(True)]
+    else:
+        items = [item(pt) for _ in range(rng.randint(0, 4))]
+    ops, niter = [], 1 if kind == "iter" else 0
+    for _ in range(rng.randint(1, 6)):
+        o = rng.choice(["set_data", "data_set", "get_data", "data_get", "assign", "assign", "make_sequence", "freeze", "iter_consume",
+                        "set_isc", "set_pt", "calc_len", "stream_write", "stream_writelines", "stream_tell"])
+        if o in ("set_data", "data_set", "stream_write"):
+            ops.append(mkop(o, v=item()))
+        elif o in ("get_data", "set_isc", "set_pt"):
+            ops.append(mkop(o, b=rng.random() < 0.5))
+        elif o == "assign":
+            k = rng.choice(["list", "tuple", "iter"])
+            if k == "iter":
+                if niter >= 2:
+                    k = "list"
+                else:
+                    niter += 1
+            ops.append(mkop(o, k=k, items=[item() for _ in range(rng.randint(0, 3))]))
+        elif o == "stream_writelines":
+            ops.append(mkop(o, items=[item(), item()]))
+        else:
+            ops.append(mkop(o))
+    return {"init": {"kind": kind, "items": items, "pt": pt}, "ops": ops, "method": rng.choice(["GET", "HEAD", "POST"]),
+            "code": rng.choice([200, 200, 201, 204, 304, 404, 100]), "ncb": rng.randint(0, 2)}
+
+
+def shape_paths(transitions):
+    """exported LTS (pre, op, post, depth, init) -> for every transition the shortest operation path from an
+    initial state to `pre` (states are identified by their JSON text), as replayable cases"""
+    import json as _json
+
+    def key(st):
+        return _json.dumps(st, sort_keys=True)
+    path = {}
+    for tr in transitions:
+        if tr["depth"] == 0:
+            path.setdefault(key(tr["pre"]), (tr["init"], []))
+    changed = True
+    while changed:
+        changed = False
+        for tr in transitions:
+            kp, kq = key(tr["pre"]), key(tr["post"])
+            if kp in path and (kq not in path or len(path[kq][1]) > len(path[kp][1]) + 1) and path[kp][0] == tr["init"]:
+                path[kq] = (path[kp][0], path[kp][1] + [tr["op"]])
+                changed = True
+    cases = []
+    for tr in transitions:
+        kp = key(tr["pre"])
+        if kp in path and path[kp][0] == tr["init"]:
+            cases.append({"init": SHAPE_INITS[tr["init"]], "ops": path[kp][1] + [tr["op"]], "model_exc": tr["exc"]})
+    return cases
+
+
+# ---------------------------------------------------------------------------- exceptions as responses (growth)
+def exception_classes():
+    import werkzeug.exceptions as X
+    from werkzeug.routing import RequestRedirect
+
+    out = []
+    for name in sorted(dir(X)):
+        obj = getattr(X, name)
+        if isinstance(obj, type) and issubclass(obj, X.HTTPException) and obj is not X.HTTPException and not name.startswith("_"):
+            if obj.code is not None:
+                out.append(name)
+    return out + ["RequestRedirect"]
+
+
+TEXTS = ["", "plain", "é€\U0001f600", "a\r\nX-Injected: 1", "line\nbreak", "<b>&\"'", "\r", "tab\tx"]
+METHODS = [["GET", "POST"], ["GET\r\nX: y"], [], ["PÖST"], ["A", "B\n"]]
+URLS = ["http://localhost/x", "/é?q=€", "http://ex\xe4mple.com/p a", "/a\r\nX: y", "/plain"]
+
+
+def build_exception(spec):
+    """spec = {cls, desc: {has, val}, arg: {...}} -> (exception object, header-bound argument texts)"""
+    import datetime as dt
+
+    import werkzeug.exceptions as X
+    from werkzeug.datastructures import WWWAuthenticate
+    from werkzeug.routing import RequestRedirect
+
+    name = spec["cls"]
+    desc = txt(spec["desc"]["val"]) if spec["desc"]["has"] else None
+    a = spec["arg"]
+    hb = []
+    if name == "RequestRedirect":
+        url = txt(a["url"])
+        return RequestRedirect(url), [cps(url)]
+    cls = getattr(X, name)
+    if name == "MethodNotAllowed":
+        ms = [txt(m) for m in a["methods"]]
+        return cls(valid_methods=ms if a["has"] else None, description=desc), [cps(m) for m in ms] if a["has"] else []
+    if name == "RequestedRangeNotSatisfiable":
+        units = txt(a["units"])
+        return cls(length=a["length"] if a["has"] else None, units=units, description=desc), [cps(units)] if a["has"] else []
+    if name == "Unauthorized":
+        if not a["has"]:
+            return cls(description=desc), []
+        vals = [WWWAuthenticate(txt(w["scheme"]), {"realm": txt(w["realm"])}) for w in a["auth"]]
+        hb = [w["scheme"] for w in a["auth"]] + [w["realm"] for w in a["auth"]]
+        return cls(description=desc, www_authenticate=vals if len(vals) != 1 or a["aslist"] else vals[0]), hb
+    if name in ("TooManyRequests", "ServiceUnavailable"):
+        ra = None
+        if a["kind"] == "int":
+            ra = a["n"]
+        elif a["kind"] == "datetime":
+            ra = dt.datetime(2026, 1, 2, 3, 4, 5, tzinfo=dt.timezone.utc) + dt.timedelta(seconds=a["n"])
+        return cls(description=desc, retry_after=ra), []
+    if name == "BadRequestKeyError":
+        return cls(txt(a["key"])), []
+    return cls(description=desc), []
+
+
+def exc_case(spec):
+    """render one HTTPException for GET and for spec['method'] through get_response / __call__"""
+    def render(method):
+        out = {"exc": "", "status": [], "headers": [], "body": [], "allbytes": True, "cb": [], "ic": -1, "raw": False}
+        code = 0
+        hb = []
+        try:
+            exc, hb = build_exception(spec)
+            code = exc.code or 0
+            env = environ_for(method)
+            if spec["via"] == "call":
+                got = {}
+
+                def start_response(status, headers, exc_info=None):
+                    got["status"], got["headers"] = status, headers
+                app_iter = exc(env, start_response)
+                status_line, headers = got["status"], got["headers"]
+            else:
+                app_iter, status_line, headers = exc.get_response(env).get_wsgi_response(env)
+            out["status"] = cps(status_line)
+            out["headers"] = hlist(headers)
+            chunks = list(app_iter)
+            if hasattr(app_iter, "close"):
+                app_iter.close()
+            out["allbytes"] = all(type(c) is bytes for c in chunks)
+            out["body"] = list(b"".join(c if isinstance(c, (bytes, bytearray)) else str(c).encode("utf-8", "replace") for c in chunks))
+        except Exception as e:  # recorded, judged by TLC
+            out["exc"] = type(e).__name__
+        return out, code, hb
+    twin, _, _ = render("GET")
+    out, code, hb = render(spec["method"])
+    return {"op": "exc", "cls": spec["cls"], "via": spec["via"], "method": spec["method"], "code": code, "hb": hb,
+            "twin": len(twin["body"]), "out": out}
+
+
+def exception_specs(rng, per_class):
+    specs = []
+    for name in exception_classes():
+        for n in range(per_class):
+            d = rng.choice(TEXTS)
+            spec = {"cls": name, "desc": {"has": n % 3 != 0, "val": cps(d)}, "arg": {"has": False},
+                    "via": rng.choice(["get_response", "call"]), "method": rng.choice(["GET", "HEAD", "POST"])}
+            if name == "RequestRedirect":
+                spec["arg"] = {"has": True, "url": cps(rng.choice(URLS))}
+            elif name == "MethodNotAllowed":
+                spec["arg"] = {"has": n % 4 != 0, "methods": [cps(m) for m in rng.choice(METHODS)]}
+            elif name == "RequestedRangeNotSatisfiable":
+                spec["arg"] = {"has": n % 4 != 0, "length": rng.choice([0, 1, 12345678901]), "units": cps(rng.choice(["bytes", "b\r\nX: y", "é"]))}
+            elif name == "Unauthorized":
+                spec["arg"] = {"has": n % 4 != 0, "aslist": rng.random() < 0.5,
+                               "auth": [{"scheme": cps(rng.choice(["basic", "digest", "bearer"])), "realm": cps(rng.choice(TEXTS))}
+                                        for _ in range(rng.randint(1, 2))]}
+            elif name in ("TooManyRequests", "ServiceUnavailable"):
+                spec["arg"] = {"has": True, "kind": rng.choice(["none", "int", "datetime"]), "n": rng.choice([0, 1, 120, 86400 * 400])}
+            elif name == "BadRequestKeyError":
+                spec["arg"] = {"has": True, "key": cps(rng.choice(TEXTS))}
+            specs.append(spec)
+    return specs
